@@ -1264,7 +1264,15 @@ mod imp {
         let mut cmd = std::process::Command::new("strace");
         cmd.arg("-f").arg("-s").arg("0").arg("-o").arg(&out).arg("-e").arg(TRACE_SET);
         if let Some((sc, when)) = &tr.inject {
-            cmd.arg("-e").arg(format!("inject={sc}:signal=SIGKILL:when={when}"));
+            if sc.contains(":error=") {
+                // local I/O fault instead of a kill: the n-th <syscall> ON THE TEMP FILE OR THE DESTINATION fails with
+                // the given errno (-P restricts tracing, and therefore injection, to syscalls touching those paths, so
+                // the runtime's own eventfd/pipe writes are never hit)
+                cmd.arg("-P").arg(dir.join(TEMP)).arg("-P").arg(&dest);
+                cmd.arg("-e").arg(format!("inject={sc}:when={when}"));
+            } else {
+                cmd.arg("-e").arg(format!("inject={sc}:signal=SIGKILL:when={when}"));
+            }
         }
         cmd.arg(&exe).args(child_args(tr.seed, addr, tr.p, &dest, "none", 0, reject, trailer_len, Fnv::of(&c.logical)));
         cmd.stdin(std::process::Stdio::null()).stdout(std::process::Stdio::null()).stderr(std::process::Stdio::piped());
@@ -1309,6 +1317,31 @@ mod imp {
         let now = classify(&t.before, &t.after, &t.content.publish);
         let dir_desc = svs::describe_snapshot(&t.after);
         if let Some((sc, when)) = &tr.inject {
+            if sc.contains(":error=") {
+                // injected local I/O error: the process lives on; whatever the pull returned, the destination is
+                // exactly prior or exactly complete, and a pull that reported success has published everything
+                if !t.text.contains("(INJECTED)") {
+                    acc.count("inject_points_not_reached", 1);
+                    return;
+                }
+                acc.evals += 1;
+                acc.cell(format!("{pn}/{}/{:?}/inject:{sc}", if tr.zstd { "zstd" } else { "none" }, tr.dest));
+                acc.count("children_with_injected_io_error", 1);
+                acc.distinct.push(hash_of(&(pn, tr.zstd, tr.dest, sc, when)));
+                let scn = sc.replace(":error=", "-");
+                match now {
+                    DestNow::Other => acc.viol.push((
+                        format!("C10:io-error-partial-dest:{pn}:{scn}"),
+                        format!("{pn} with {sc} injected at call #{when} (child exit {:?}): destination {}; directory {dir_desc}", t.run.code, describe_dest(&t.after, &t.content.publish)),
+                        replay,
+                    )),
+                    DestNow::Complete if !f.rename_ok => acc.viol.push((format!("C10:crash-published-early:{pn}:{scn}"), format!("{pn} with {sc} injected at call #{when}: destination complete without a successful rename in the trace"), replay)),
+                    DestNow::Prior if t.run.code == Some(0) => acc.viol.push((format!("C10:ok-but-not-published:{pn}:{scn}"), format!("{pn} with {sc} injected at call #{when} returned Ok but the destination is unchanged"), replay)),
+                    DestNow::Complete => acc.count("io_error_runs_destination_complete", 1),
+                    DestNow::Prior => acc.count("io_error_runs_destination_prior", 1),
+                }
+                return;
+            }
             // hook-independent crash point: killed on entry to the n-th <syscall>
             if t.run.signal != Some(libc::SIGKILL) && t.run.code != Some(128 + libc::SIGKILL) && !t.text.contains("killed by SIGKILL") {
                 acc.count("inject_points_not_reached", 1);
@@ -1426,9 +1459,9 @@ mod imp {
             for &zstd in p.compressions() {
                 if inject {
                     let syscalls: &[(&str, u64)] = if args.thorough() {
-                        &[("write", 16), ("fsync", 2), ("rename", 2), ("openat", 40), ("close", 30), ("unlink", 2), ("exit_group", 1)]
+                        &[("write", 16), ("fsync", 2), ("rename", 2), ("openat", 40), ("close", 30), ("unlink", 2), ("exit_group", 1), ("write:error=ENOSPC", 16), ("write:error=EFBIG", 16), ("fsync:error=EIO", 2), ("rename:error=EXDEV", 1), ("close:error=EIO", 12)]
                     } else {
-                        &[("write", 8), ("fsync", 1), ("rename", 1), ("exit_group", 1)]
+                        &[("write", 8), ("fsync", 1), ("rename", 1), ("exit_group", 1), ("write:error=ENOSPC", 8), ("fsync:error=EIO", 1)]
                     };
                     for (sc, maxn) in syscalls {
                         for when in 1..=*maxn {
